@@ -10,14 +10,16 @@ Implementation side, build/flow_h (harness/c/flow_h.c):
                                           the watch state printed is dbus_watch_get_enabled of the transport's read watch
 Model side, build/ml/flow/model: the same command lines.  One entry per event: value,fdvalue,pending,watch,mayqueue[,undelivered].
 
-Verdicts: an implementation state with both values below their limits, no notification pending and the read watch disabled
-is THE WEDGE: a concrete violation (the connection will never be read again by a watch-driven main loop).  Any other
-difference from the model is reported with found_input=False (the model or the harness is off, or the change is harmless)."""
+Verdicts: an implementation state with both values below the limits in force, no notification pending and the read watch
+disabled is THE WEDGE: a concrete violation (the connection will never be read again by a watch-driven main loop); this
+includes sequences that change the limits of the live connection (L events; F11-flow-setlimits, fixed in /repo d42cc8a).  Any
+other difference from the model is reported with found_input=False (the model or the harness is off, or the change is harmless).
+Model (driver glue) = implementation with a complete message left undelivered in the loader is the known finding
+F11-flow-loader-stall (known-findings.json, property C11); if it is not registered there it is a violation."""
 import itertools, os, sys
 import vlib
 
 LEG = "flow"
-F_SETLIMITS = "F11-flow-setlimits"
 F_LOADER = "F11-flow-loader-stall"
 
 
@@ -126,6 +128,7 @@ def random_flow(rnd, minsize, count):
     for _ in range(count):
         L = rnd.choice((3 * lo, 4 * lo + 17, 700, 1000, 4096))
         F = rnd.choice((1, 2, 3, 16))
+        L0, F0 = L, F
         live, evs = [], []          # generator's bookkeeping only (which sizes would land on the boundary)
         for _ in range(rnd.randint(6, 40)):
             v, f = sum(s for s, _ in live), sum(x for _, x in live)
@@ -145,10 +148,14 @@ def random_flow(rnd, minsize, count):
                 k = rnd.randrange(len(live))
                 live.pop(k)
                 evs.append(rnd.choice(("R%d", "U%d", "U%d")) % k)
-            else:
+            elif r < 0.95:
                 evs.append("N")
+            else:
+                L = max(1, v + rnd.choice((-1, 0, 1, 1, lo, -lo, 3 * lo)))     # move the size limit onto / next to the value
+                F = max(1, f + rnd.choice((0, 1, 1, 2))) if rnd.random() < 0.3 else F
+                evs.append("L%d,%d" % (L, F))
         evs.append("N")
-        out.append(("random", L, F, evs))
+        out.append(("random", L0, F0, evs))
     return out
 
 
@@ -206,6 +213,7 @@ def random_tflow(rnd, count):
         L = rnd.choice((300, 500, 1000)) if small else rnd.choice((7000, 10000))
         F = 16 if small else rnd.choice((1, 2, 16))
         lo, hi = (100, 400) if small else (TBIG, 4000)
+        L0, F0 = L, F
         live, waiting, evs = [], [], []
         for _ in range(rnd.randint(4, 16)):
             v, f = sum(s for s, _ in live), sum(x for _, x in live)
@@ -220,14 +228,47 @@ def random_tflow(rnd, count):
                     want = rnd.randint(lo, hi)
                 evs.append("%s%d,%d" % ("W" if small and rnd.random() < 0.5 else "A", want, nf))
                 waiting.append((want, nf))
-            elif live:
+            elif live and r < 0.93:
                 k = rnd.randrange(len(live))
                 live.pop(k)
                 evs.append("U%d" % k)
-            else:
+            elif r < 0.97:
                 evs.append("N")
+            else:
+                L = max(1, v + rnd.choice((-1, 0, 1, 1, lo, 2 * lo)))
+                evs.append("L%d,%d" % (L, F))
         evs.append("N")
-        out.append(("t-random-small" if small else "t-random", L, F, evs))
+        out.append(("t-random-small" if small else "t-random", L0, F0, evs))
+    return out
+
+
+def setlimits_cases(minsize, tier):
+    """the limits of a LIVE connection are changed (dbus_connection_set_max_received_size / _unix_fds): raised past / to / just
+    short of the current value while the watch is off, lowered onto / below it while it is on, with a notification still owed"""
+    out = []
+    lo = minsize[0]
+    a, b = lo + 24, lo + 50
+    v = a + b
+    for d in (-1, 0, 1):                                     # the live bytes are v; the connection was at limit v + d
+        L = v + d
+        arrive = ["A%d,0" % a, "A%d,0" % b]
+        for new in (v - 1, v, v + 1, 2 * v, a, a + 1, 1):
+            for rel in (["U0", "U0"], ["R0", "N", "U0"], ["U1", "U0"]):
+                out.append(("setlimits%+d" % d, "flow", L, 16, arrive + ["L%d,16" % new] + rel + ["A%d,0" % lo, "N"]))
+                out.append(("setlimits-owed%+d" % d, "flow", L, 16, arrive + ["R1", "L%d,16" % new] + rel[:1] + ["N", "A%d,0" % lo, "N"]))
+            out.append(("setlimits-twice%+d" % d, "flow", L, 16, arrive + ["L%d,16" % new, "L%d,16" % L, "U0", "U0", "N"]))
+    for newf in (1, 2, 3):
+        out.append(("setlimits-fds", "flow", 100000, 2, ["A%d,2" % minsize[2], "L100000,%d" % newf, "U0", "A%d,1" % minsize[1], "N"]))
+        out.append(("setlimits-fds", "flow", 100000, 2, ["A%d,1" % minsize[1], "L100000,%d" % newf, "A%d,1" % minsize[1], "U0", "N"]))
+    # the real setters on the real transport; the first one is the witness of the fixed finding F11-flow-setlimits
+    out.append(("t-setlimits", "tflow", 10000, 10, ["A5000,0", "A5000,0", "L20000,10", "U0", "U0", "A3000,0", "N"]))
+    for d in (-1, 0, 1):
+        for new in (9999, 10000, 10001, 20000, 5000, 5001):
+            out.append(("t-setlimits", "tflow", 10000 + d, 10, ["A5000,0", "A5000,0", "A%d,0" % TBIG, "L%d,10" % new, "U0", "U0", "A3000,0", "U0", "N"]))
+    for newf in (1, 2, 3):
+        out.append(("t-setlimits-fds", "tflow", 1000000, 2, ["A%d,2" % TBIG, "A%d,0" % (TBIG + 7), "L1000000,%d" % newf, "U0", "A%d,1" % TBIG, "N"]))
+    # the witness of the known finding F11-flow-loader-stall
+    out.append(("t-loader-stall", "tflow", 200, 10, ["W100,0", "W100,0", "A100,0", "U0", "U0"]))
     return out
 
 
@@ -259,7 +300,8 @@ def leg(ctx, rep, rnd, tier, only=None):
     info = ctx["info"]
     res = {"flow_cases": 0, "tflow_cases": 0, "tflow_final_states_with_message_left_in_loader": 0, "flow_events": 0, "flow_labels": {}, "flow_downward_crossings_at_limit": 0, "flow_downward_crossings": 0,
            "flow_states_exactly_at_limit": 0, "flow_delayed_notifications": 0, "flow_refused_arrivals": 0, "flow_distinct_nontrivial": 0,
-           "flow_findings_reproduced": [], "flow_unregistered_findings": [], "flow_samples": []}
+           "flow_limit_changes": 0, "flow_samples": []}
+    stall_sample = None
     try:
         model_exe = vlib.build_ml("flow")
     except vlib.BuildBroken as e:
@@ -289,6 +331,7 @@ def leg(ctx, rep, rnd, tier, only=None):
         cases += [(lab, "tflow", L, F, evs) for lab, L, F, evs in directed_tflow(minsize, tier)]
         cases += [(lab, "tflow", L, F, evs) for lab, L, F, evs in sameread_tflow(minsize, tier)]
         cases += [(lab, "tflow", L, F, evs) for lab, L, F, evs in random_tflow(rnd, 150 if tier == "quick" else 3000)]
+        cases += setlimits_cases(minsize, tier)
     seen, uniq = set(), []
     for c in cases:
         key = cmdline(*c[1:])
@@ -306,9 +349,10 @@ def leg(ctx, rep, rnd, tier, only=None):
         rep.violation("flow model driver crashed on `%s`: %s" % (line[:200], err[-300:]), {"leg": LEG, "cmd": line, "names": "ml/flow driver"}, found_input=False)
 
     nontrivial = set()
-    for (label, mode, L, F, evs), line, i, m in zip(cases, lines, impl, model):
+    for (label, mode, L0, F0, evs), line, i, m in zip(cases, lines, impl, model):
         if i == "!CRASH" or m == "!CRASH":
             continue
+        L, F = L0, F0            # the limits in force (L<ms>,<mf> events change them)
         res["flow_cases" if mode == "flow" else "tflow_cases"] += 1
         res["flow_labels"][label] = res["flow_labels"].get(label, 0) + 1
         ie, me = i.split(" "), m.split(" ")
@@ -326,6 +370,12 @@ def leg(ctx, rep, rnd, tier, only=None):
                 reported = True
                 break
             res["flow_events"] += 1
+            if ev[0] == "L":
+                prev_limits = (L, F)
+                L, F = (int(x) for x in ev[1:].split(","))
+                res["flow_limit_changes"] += 1
+                if prev is not None and (prev[0] >= prev_limits[0] or prev[1] >= prev_limits[1]) and st[0] < L and st[1] < F:
+                    nontrivial.add(line)
             if st[0] == L or st[1] == F:
                 res["flow_states_exactly_at_limit"] += 1
             if ev[0] == "A" and prev is not None and (prev[0], prev[1]) == (st[0], st[1]):
@@ -343,10 +393,14 @@ def leg(ctx, rep, rnd, tier, only=None):
                 if prev is not None:
                     why = " (before this event: value %d, descriptors %d%s)" % (prev[0], prev[1], "; a value sat EXACTLY on its limit" if prev[0] == L or prev[1] == F else "")
                 like = ""
-                if mode == "flow":
-                    s, _ = vlib.run_lines(model_exe, ["s" + line], shards=1)
-                    if s and s[0].split(" ")[:idx + 1] == ie[:idx + 1] and me[:idx + 1] != ie[:idx + 1]:
-                        like = "; the implementation behaves like the model with the crossing test (old <= guard) != (new <= guard)"
+                if mode == "flow" and me[:idx + 1] != ie[:idx + 1]:
+                    for variant, text in (("s", "with the crossing test (old <= guard) != (new <= guard)"), ("p", "whose limit setters do not re-evaluate the read watch (the code before d42cc8a)")):
+                        s, _ = vlib.run_lines(model_exe, [variant + line], shards=1)
+                        if s and s[0].split(" ")[:idx + 1] == ie[:idx + 1]:
+                            like = "; the implementation behaves like the model " + text
+                            break
+                if any(e[0] == "L" for e in evs[:idx + 1]):
+                    why += "; the limits were changed to %d / %d by an earlier event of this sequence" % (L, F)
                 rep.violation("incoming flow control wedges the connection: limits %d bytes / %d descriptors, after `%s` the live messages total %d bytes / %d descriptors "
                               "(below both limits), %s and the read watch is DISABLED%s: nothing will ever re-enable it, the connection is never read again. "
                               "The proved model (Proofs/FlowProofs.v flow_no_wedge) says the watch must be enabled here%s [%s, event %d]" % (
@@ -356,8 +410,6 @@ def leg(ctx, rep, rnd, tier, only=None):
                               dict(replay, event_index=idx, state=x))
                 reported = True
             prev = st
-        if mode == "tflow" and prev is not None and prev[5] and prev[3] == "1" and prev[4] == 1:
-            res["tflow_final_states_with_message_left_in_loader"] += 1
         if reported:
             continue
         # agreement with the model, event by event
@@ -372,52 +424,22 @@ def leg(ctx, rep, rnd, tier, only=None):
                 k, evs[k] if k < len(evs) else "-", line[:200], ie[k] if k < len(ie) else "-", me[k] if k < len(me) else "-", ",undelivered" if mode == "tflow" else ""),
                 dict(replay, event_index=k, names="correspondence harness/c/flow_h.c (%s) vs Wire.Flow.%s" % (mode, "fstep" if mode == "flow" else "fstep + socket glue of ml/flow/driver.ml")),
                 found_input=False)
+        elif mode == "tflow" and prev is not None and prev[5] and prev[3] == "1" and prev[4] == 1:
+            res["tflow_final_states_with_message_left_in_loader"] += 1
+            if stall_sample is None or label == "t-loader-stall":
+                stall_sample = {"cmd": line, "impl": i[:600]}
     res["flow_distinct_nontrivial"] = len(nontrivial)
     step = max(1, len(cases) // 6)
     res["flow_samples"] = [{"cmd": l[:160], "impl": i[:160]} for l, i in list(zip(lines, impl))[::step]][:6]
 
-    if only is None:
-        probes(rep, res, impl_exe, model_exe)
-    return res
-
-
-def probes(rep, res, impl_exe, model_exe):
-    """behaviours of the UNCHANGED tree that are outside the no-wedge theorem (its hypotheses exclude them); reported as known
-    findings when registered in known-findings.json under C11, otherwise only recorded in the coverage"""
-    known = {e["id"]: e for e in vlib.load_known("C11")}
-
-    def note(fid, what, sample):
-        res["flow_findings_reproduced"].append(fid)
-        if fid in known:
-            rep.known(known[fid], sample)
+    if stall_sample is not None:
+        # model (driver glue) = implementation, but a written message is never delivered: must be the registered finding
+        entry = {e["id"]: e for e in vlib.load_known("C11")}.get(F_LOADER)
+        if entry is not None:
+            for _ in range(res["tflow_final_states_with_message_left_in_loader"]):
+                rep.known(entry, stall_sample)
         else:
-            res["flow_unregistered_findings"].append({"id": fid, "what": what, "sample": sample})
-
-    # 1. changing the limits of a live connection (Proofs/FlowProofs.v flow_set_limits_can_wedge): model and implementation agree
-    for line, L2, F2 in (("flow 200 10 A200,0 L400,10 U0 N", 400, 10), ("tflow 10000 10 A5000,0 A5000,0 L20000,10 U0 U0 A3000,0 N", 20000, 10)):
-        i, icr = vlib.run_lines(impl_exe, [line], shards=1)
-        m, _ = vlib.run_lines(model_exe, [line], shards=1)
-        if icr or not i or i[0] == "!CRASH":
-            rep.violation("implementation crashed while the limits of a live connection were changed: `%s`" % line, {"leg": LEG, "cmd": line, "stderr": icr[0][1] if icr else ""})
-            continue
-        ie, me = i[0].split(" "), m[0].split(" ")
-        strip = (lambda es: es) if line.startswith("flow") else (lambda es: [",".join(e.split(",")[:2] + e.split(",")[3:]) for e in es])
-        if strip(ie) != strip(me):
-            rep.violation("changing the limits of a live connection: implementation %s vs model %s on `%s`" % (i[0][:200], m[0][:200], line),
-                          {"leg": LEG, "cmd": line, "impl": i[0], "model": m[0], "names": "correspondence _dbus_transport_set_max_received_size vs Wire.Flow.step (SetLimits)"}, found_input=False)
-            continue
-        last = parse_entry(ie[-1])
-        if last is not None and wedged(last, L2, F2):
-            note(F_SETLIMITS, "raising max_received_size on a connection that has reached it leaves the read watch disabled for ever "
-                              "(_dbus_counter_set_notify clears notify_pending, no check_read_watch; later releases stay below the new guard)", {"cmd": line, "impl": i[0]})
-    # 2. a complete message left in the loader when the limit was reached is not queued when capacity returns
-    line = "tflow 200 10 W100,0 W100,0 A100,0 U0 U0"
-    i, icr = vlib.run_lines(impl_exe, [line], shards=1)
-    if icr or not i or i[0] == "!CRASH":
-        rep.violation("implementation crashed on `%s`" % line, {"leg": LEG, "cmd": line, "stderr": icr[0][1] if icr else ""})
-    else:
-        last = parse_entry(i[0].split(" ")[-1])
-        if last is not None and last[0] == 0 and last[3] == "1" and last[5]:
-            note(F_LOADER, "three 100-byte messages arrive in ONE read with max_received_size 200: two are queued, the third stays in the loader; after both "
-                           "are released (0 live bytes, read watch enabled) the third is still not delivered, because live_messages_notify only re-arms the read "
-                           "watch and nothing re-runs _dbus_transport_queue_messages until more bytes arrive; written in a separate write it IS delivered", {"cmd": line, "impl": i[0]})
+            rep.violation("a complete message that was in the loader when a limit was reached is not delivered after the live messages are released "
+                          "(0 or few live bytes, read watch enabled, message undelivered): `%s` -> %s; written one message per read it is delivered. "
+                          "Not registered in known-findings.json as %s" % (stall_sample["cmd"], stall_sample["impl"][:300], F_LOADER), dict(stall_sample, leg=LEG))
+    return res
